@@ -301,12 +301,12 @@ def run(ctx):
     scns = churn + scns
     asan = H.build(ctx.work, "asan")
     run_monitored(ctx, asan, scns, monitor, tag="asan", cpu_limit=30)
-    coverage_run(ctx, scns[:800])
+    coverage_run(ctx, churn[:40] + scns[len(churn):len(churn) + 760])     # a sample of every family (the thorough tier has more churn scenarios than that)
     from . import c01_deep
     if not ctx.quick:
         c01_deep.run(ctx, scns, monitor)
     else:
-        c01_deep.msan_pass(ctx, scns[:1000])
+        c01_deep.msan_pass(ctx, churn + scns[len(churn):len(churn) + 940])
         # a short coverage-guided stage on every change as well
         c01_deep.run_fuzz(ctx, [s for s in scns if s.meta["fam"] != "dse-inflated"], int(os.environ.get("VERIF_FUZZ_RUNS", "12000")))
     rep.need("inputs_executed", rep.counters.get("inputs_executed", 0), ctx.n(100000, 1500000))
